@@ -30,7 +30,9 @@ def directed_histories():
     v2[0] = json.loads(json.dumps(v2[0])); v2[0]["contexts"][0]["env"]["CFLAGS"] = ["-Dedited"]
     vs = {"laze-project.yml": [f["laze-project.yml"], v2]}
     t1 = {"laze-project.yml": 1}; t2 = {"laze-project.yml": 2}
-    R = lambda cli, stop=0, **sc: dict(op="run", cli=cli, stop=stop, sc=sc)
+    def R(cli, stop=0, **sc):
+        b = sc.pop("bin", 1)
+        return dict(op="run", cli=cli, stop=stop, sc=sc, bin=b)
     E = lambda t: dict(op="edit", tree=t)
     H = lambda name, ops: (name, dict(versions=vs, tree0=t1, ops=ops))
     b0 = {"builders": ["b0"]}
@@ -56,6 +58,10 @@ def directed_histories():
         H("disable order changed", [R({"disable": ["opt", "lib"]}), R({"disable": ["lib", "opt"]})]),
         H("select repeated", [R({"select": ["opt"]}), R({"select": ["opt", "opt"]})]),
         H("disable changed", [R({}), R({"disable": ["lib"]}), R({})]),
+        H("another laze binary", [R({}), R({}, bin=2), R({}, bin=2)]),
+        H("another laze binary, narrower arguments", [R({}), R(b0, bin=2)]),
+        H("another laze binary after a killed run", [R({}), R(b0, stop=5), R({}, bin=2), R(b0, bin=3)]),
+        H("another laze binary, task run", [R({}), R({"builders": ["b1"], "apps": ["a1"]}, bin=2, task="info")]),
         H("file edited", [R({}), E(t2), R({})]),
         H("file edited and reverted", [R({}), E(t2), E(t1), R({})]),
         H("file edited, run, reverted", [R({}), E(t2), R({}), E(t1), R({})]),
@@ -115,11 +121,15 @@ def run(rep, tier, seed, rng):
     open_known = {k["key"] for k in core.load_known() if k.get("property") == "C08" and k.get("status") == "open"}
     for nm, h, (root, steps, fresh), rp in zip(names, hs, res, reps):
         lens[len(h["ops"])] += 1
-        desc = [("run", proj.argv(o["cli"]), o.get("stop", 0), o.get("sc", {})) if o["op"] == "run" else ("edit", o["tree"]) for o in h["ops"]]
+        desc = [("run", proj.argv(o["cli"]), o.get("stop", 0), o.get("sc", {}), "binary %d" % o.get("bin", 1)) if o["op"] == "run" else ("edit", o["tree"]) for o in h["ops"]]
         data = dict(name=nm, history=desc, versions={f: len(v) for f, v in h["versions"].items()}, full=h,
                     impl=[None if s is None else dict(rc=s["rc"], cache_hit=s["cache_hit"], ninja_argv=s["ninja_argv"], tasks=s["tasks"], stderr=s["stderr"][-200:]) for s in steps])
         # the property on the implementation
         pv = hist.property_check(h, steps, fresh)
+        bv = hist.binary_check(h, steps)
+        if bv:
+            nprop += 1
+            rep.violation("the cache is accepted after the laze binary changed: " + "; ".join(bv)[:300], data, found_input=True)
         if pv:
             nprop += 1
             rep.violation("after this history the last run differs from the same run in an empty build directory: " + "; ".join(pv)[:600], data, found_input=True)
@@ -154,7 +164,7 @@ def run(rep, tier, seed, rng):
     rep.cov.update(evaluations=sum(1 for h in hs for o in h["ops"] if o["op"] == "run"), distinct_nontrivial=len(nontriv),
                    rule="%d directed histories (one per clause, every fault point x {old arguments, same arguments, edit+revert}) + %d random histories over random projects: "
                         "2-8 operations among run(args from a family of related command lines: sub/superset and reordered --builders/--apps, unknown names, --select/--disable, "
-                        "several -D incl. permuted/swapped/equal values, failing -D, --partition), kill at fault point 1-7, edit (env/source/app added, touch, load-breaking, "
+                        "several -D incl. permuted/swapped/equal values, failing -D, --partition), another laze binary from some run on, kill at fault point 1-7, edit (env/source/app added, touch, load-breaking, "
                         "generation-breaking, revert to an earlier version, file removed); each run also with tasks/-G at random. Compared per run: hit/regenerate/fail/killed, exit status, "
                         "ninja argv, executed tasks, ninja file bytes, existence of the cache file. Property check on the implementation: the last run against the same run "
                         "after removing the build directory. non-trivial = a history with a cache hit and at least one failing/killed run or edit" % (len(named), n),
@@ -167,5 +177,5 @@ def run(rep, tier, seed, rng):
         "a kill is SIGABRT at one of seven fault points (hooks); kills inside a single write call are covered by: a truncated bincode cache does not deserialize (not modelled), a partly written ninja file is state NPartial",
         "the 64-bit hash of the -D environment is modelled as equality of the environments",
         "C08_hit_is_fresh: premises same build-dir/root/binary spelling, same -D list, no --partition, --apps narrowing in global mode only; the remaining cases are covered by the correspondence and the implementation-level property check only",
-        "a changed laze binary (build uuid) is in the model and theorems but not exercised by the harness; local-mode runs are (own ninja file and cache)",
+        "a changed laze binary is exercised by re-stamping the 16-byte build uuid at the head of the cache files (the uuid is used for nothing but that comparison); that a new binary gets a new uuid is the build_uuid crate's business",
     ]
